@@ -30,6 +30,7 @@ type SpecEnv struct {
 	noUnfold   bool
 	exportRec  bool // lemma export: emit the global defining equation even for "rec unfold"
 	rangeAlloc *ssa.Alloc // the current loop's hidden range index (loop clauses)
+	lp         *loopRec   // the loop a clause belongs to: a name declared several times means the variable this loop assigns
 	entryAlloc string
 }
 
@@ -248,7 +249,7 @@ func (env *SpecEnv) localByName(name string) (Val, bool) {
 			if a, ok := ins.(*ssa.Alloc); ok && a.Comment == name {
 				ck := cellKey{fr.id, a}
 				if _, live := env.cur.cells[ck]; live || !env.ex.isSimpleCell(a) {
-					if best == nil {
+					if best == nil || (env.lp != nil && !storedInLoop(env.lp, best) && storedInLoop(env.lp, a)) {
 						best = a
 					}
 				} else if dead == nil {
@@ -1463,12 +1464,14 @@ func (ex *Exec) safeEvalModifies(env *SpecEnv, n *Node, what string) (out []modI
 func (ex *Exec) evalLoopClause(fr *Frame, st *State, cl Clause, lp *loopRec) string {
 	env := ex.loopEnv(fr, st)
 	env.rangeAlloc = rangeAllocOf(lp)
+	env.lp = lp
 	return env.evalBool(cl.E, "loop invariant "+cl.Text)
 }
 
 func (ex *Exec) evalLoopExpr(fr *Frame, st *State, n *Node, lp *loopRec) string {
 	env := ex.loopEnv(fr, st)
 	env.rangeAlloc = rangeAllocOf(lp)
+	env.lp = lp
 	return env.evalInt(n, "loop variant")
 }
 
@@ -1663,6 +1666,17 @@ func tagsIntersect(a, b []string) bool {
 	for _, x := range a {
 		for _, y := range b {
 			if x == y {
+				return true
+			}
+		}
+	}
+	return false
+}
+
+func storedInLoop(lp *loopRec, a *ssa.Alloc) bool {
+	for b := range lp.blocks {
+		for _, ins := range b.Instrs {
+			if st, ok := ins.(*ssa.Store); ok && st.Addr == a {
 				return true
 			}
 		}
